@@ -1,28 +1,45 @@
 """Shared ODX fragments for layer hierarchies (C09, C15, C10): comparam subset / spec documents."""
 
 SIMPLE_CPS = [("CP_Baudrate", "500000"), ("CP_CanFuncReqId", "2015"), ("CP_TesterPresentTime", "2000000"),
-              ("CP_DoIPLogicalTesterAddress", "3584")]
-COMPLEX_CPS = [("CP_UniqueRespIdTable", [("CP_CanPhysReqId", "2016"), ("CP_CanRespUSDTId", "2024"), ("CP_DoIPLogicalEcuAddress", "4096")])]
+              ("CP_DoIPLogicalTesterAddress", "3584"), ("CP_CANFDBaudrate", "2000000"), ("CP_CANFDTxMaxDataLength", "TX_DL=8")]
+NESTED = object()
+# (subset, name, sub-parameters); a nested COMPLEX-COMPARAM sits between the simple sub-parameters
+COMPLEX_CPS = [("CPSUB", "CP_UniqueRespIdTable", [("CP_CanPhysReqId", "2016"), ("CP_ExtAddrInfo", NESTED), ("CP_CanRespUSDTId", "2024")]),
+               ("CPSUB2", "CP_UniqueRespIdTable", [("CP_DoIPLogicalEcuAddress", "4096")])]
 
 
-def cpsubset_doc():
-    cps = ""
-    for n, d in SIMPLE_CPS:
-        cps += (f'<COMPARAM ID="CPSUB.{n}" PARAM-CLASS="COM" CPTYPE="STANDARD" CPUSAGE="ECU-COMM"><SHORT-NAME>{n}</SHORT-NAME>'
-                f'<PHYSICAL-DEFAULT-VALUE>{d}</PHYSICAL-DEFAULT-VALUE><DATA-OBJECT-PROP-REF ID-REF="CPSUB.dop"/></COMPARAM>')
+def _cp(sub, n, d, prefix=""):
+    return (f'<COMPARAM ID="{sub}.{prefix}{n}" PARAM-CLASS="COM" CPTYPE="STANDARD" CPUSAGE="ECU-COMM"><SHORT-NAME>{n}</SHORT-NAME>'
+            f'<PHYSICAL-DEFAULT-VALUE>{d}</PHYSICAL-DEFAULT-VALUE><DATA-OBJECT-PROP-REF ID-REF="{sub}.dop"/></COMPARAM>')
+
+
+def _subset(sub, simple, complexes):
+    cps = "".join(_cp(sub, n, d) for n, d in simple)
     ccps = ""
-    for n, subs in COMPLEX_CPS:
-        inner = "".join(f'<COMPARAM ID="CPSUB.{n}.{sn}" PARAM-CLASS="COM" CPTYPE="STANDARD" CPUSAGE="ECU-COMM"><SHORT-NAME>{sn}</SHORT-NAME>'
-                        f'<PHYSICAL-DEFAULT-VALUE>{sd}</PHYSICAL-DEFAULT-VALUE><DATA-OBJECT-PROP-REF ID-REF="CPSUB.dop"/></COMPARAM>'
-                        for sn, sd in subs)
-        ccps += (f'<COMPLEX-COMPARAM ID="CPSUB.{n}" PARAM-CLASS="UNIQUE_ID" CPTYPE="STANDARD" CPUSAGE="ECU-COMM">'
+    for n, subs in complexes:
+        inner = ""
+        for sn, sd in subs:
+            if sd is NESTED:
+                inner += (f'<COMPLEX-COMPARAM ID="{sub}.{n}.{sn}" PARAM-CLASS="COM" CPTYPE="STANDARD" CPUSAGE="ECU-COMM">'
+                          f'<SHORT-NAME>{sn}</SHORT-NAME>{_cp(sub, "CP_ExtAddr", "7", n + "." + sn + ".")}</COMPLEX-COMPARAM>')
+            else:
+                inner += _cp(sub, sn, sd, n + ".")
+        ccps += (f'<COMPLEX-COMPARAM ID="{sub}.{n}" PARAM-CLASS="UNIQUE_ID" CPTYPE="STANDARD" CPUSAGE="ECU-COMM">'
                  f'<SHORT-NAME>{n}</SHORT-NAME>{inner}</COMPLEX-COMPARAM>')
     return ('<?xml version="1.0" encoding="UTF-8"?><ODX MODEL-VERSION="2.2.0" xmlns:xsi="http://www.w3.org/2001/XMLSchema-instance">'
-            '<COMPARAM-SUBSET ID="CPSUB" CATEGORY="ISO"><SHORT-NAME>CPSUB</SHORT-NAME><DATA-OBJECT-PROPS>'
-            '<DATA-OBJECT-PROP ID="CPSUB.dop"><SHORT-NAME>cpdop</SHORT-NAME><COMPU-METHOD><CATEGORY>IDENTICAL</CATEGORY></COMPU-METHOD>'
+            f'<COMPARAM-SUBSET ID="{sub}" CATEGORY="ISO"><SHORT-NAME>{sub}</SHORT-NAME><DATA-OBJECT-PROPS>'
+            f'<DATA-OBJECT-PROP ID="{sub}.dop"><SHORT-NAME>cpdop</SHORT-NAME><COMPU-METHOD><CATEGORY>IDENTICAL</CATEGORY></COMPU-METHOD>'
             '<DIAG-CODED-TYPE BASE-DATA-TYPE="A_UINT32" xsi:type="STANDARD-LENGTH-TYPE"><BIT-LENGTH>32</BIT-LENGTH></DIAG-CODED-TYPE>'
             '<PHYSICAL-TYPE BASE-DATA-TYPE="A_UINT32"/></DATA-OBJECT-PROP></DATA-OBJECT-PROPS>'
             f'<COMPARAMS>{cps}</COMPARAMS><COMPLEX-COMPARAMS>{ccps}</COMPLEX-COMPARAMS></COMPARAM-SUBSET></ODX>')
+
+
+def cpsubset_doc():
+    return _subset("CPSUB", SIMPLE_CPS, [(n, subs) for sub, n, subs in COMPLEX_CPS if sub == "CPSUB"])
+
+
+def cpsubset2_doc():
+    return _subset("CPSUB2", [], [(n, subs) for sub, n, subs in COMPLEX_CPS if sub == "CPSUB2"])
 
 
 def cpspec_doc():
